@@ -28,6 +28,32 @@ OBLIGATIONS = [
      "statement": "clean close + reopen at the current time (after any clock advance) preserves the abstract state and the invariants"},
     {"id": "C12_M5", "theorem": "Iora.C12.M5_compaction", "kind": "proved",
      "statement": "compaction changes nothing visible, leaves no expired key in memory, and the new snapshot alone holds exactly the live entries"},
+    {"id": "C12_gen_locks", "theorem": "Iora.C12.gen_locks_ok", "kind": "proved",
+     "statement": "Gen obligation (lock scopes extracted from kvstore.hpp): get() looks the key up and refills the cache inside one guard on _mutex, its fast path holds _cacheMutex only, "
+                  "every writer changes _cache/_kv/_expiry while holding _mutex exclusively, every access to _cache holds _cacheMutex (writes exclusively)"},
+    {"id": "C12_M6_race", "theorem": "Iora.C12.M6_get_miss_race", "kind": "proved",
+     "statement": "for the extracted lock scopes: get() on a cache miss interleaved with any writer of the same key (set, set+ttl, setBatch, remove, expireAt, persist, clear, eviction), "
+                  "for EVERY schedule of their lock / read / write steps stopped anywhere, leaves the key's cache entry absent or equal to the stored entry (value and expiry) whenever the writer is not "
+                  "between its two assignments; after the writer returned _kv holds what it stored"},
+    {"id": "C12_M6_progress", "theorem": "Iora.C12.M6_progress", "kind": "proved",
+     "statement": "under the same lock scopes the two calls never deadlock (in every reachable state with a call in flight some thread can move) and a schedule on which both return exists from every initial state"},
+    {"id": "C12_M6_refuted", "theorem": "Iora.C12.M6_unlocked_refill_refuted", "kind": "proved",
+     "statement": "the lock-scope hypothesis is needed: if get() releases _mutex before the cache refill, a schedule exists after which both calls returned, the key is removed and the cache still serves its old value"},
+    {"id": "C12_M6_threads", "theorem": "Iora.C12.M6_any_threads", "kind": "proved",
+     "statement": "the same lock skeleton for ANY number of threads, each making any sequence of calls (get(k) on the miss path, any writer of k, any erasure of k's cache entry under _cacheMutex such as the LRU victim "
+                  "of a call on another key), for EVERY schedule stopped anywhere: k's cache entry is absent or equal to the stored entry whenever no writer stands between its two assignments, in particular whenever "
+                  "no call is in flight (quiescence); _mutex has at most one exclusive holder and then no shared holder; _cacheMutex has at most one holder"},
+    {"id": "C12_M6_threads_refuted", "theorem": "Iora.C12.M6_any_threads_unlocked_refill_refuted", "kind": "proved",
+     "statement": "in the n-thread skeleton too the refill must be under the store lock: with it outside, two threads reach a quiescent state in which the key is removed and its cache entry still holds the old value"},
+    {"id": "C12_M6_writer_scope_refuted", "theorem": "Iora.C12.M6_any_threads_unlocked_writer_refuted", "kind": "proved",
+     "statement": "the writers' lock scope is needed too: if a writer releases _mutex before it updates the cache, set(k,v) || remove(k) (two writers, no reader) end quiescent with the key gone and the cache serving v"},
+    {"id": "C12_M6_linearizable", "theorem": "Iora.C12.M6_linearizable", "kind": "proved",
+     "statement": "linearizability of the calls on one key to an atomic register (ghost St.lin), any number of threads, every schedule, every reachable state: the fast path of get() reads nothing or the register's value, "
+                  "the miss path loads the register's value, and the register equals _kv[k] whenever no writer stands between its two assignments (in particular at rest)"},
+    {"id": "C12_M6_threads_progress", "theorem": "Iora.C12.M6_any_threads_progress", "kind": "proved",
+     "statement": "no deadlock for any number of threads: in every reachable state of the n-thread skeleton in which a call is in flight some thread is not blocked (lock order _mutex before _cacheMutex)"},
+    {"id": "C12_M6_register_steps", "theorem": "Iora.C12.M6_register_steps", "kind": "proved",
+     "statement": "the register changes in exactly one step of each writer's call (its assignment to _cache[k], with _mutex and _cacheMutex held, strictly inside the call) and becomes what that writer stores; no other action changes it"},
 ]
 ANCHOR_FILES = ["include/iora/storage/kvstore.hpp", "include/iora/core/timing_wheel.hpp"]
 HARNESS = "harness/c12_kv.cpp"
@@ -59,16 +85,19 @@ def gen_cases(ctx, rng, quick):
         cfg = {"maxCache": r.choice([1, 1, 2, 3, 4, 1000, 0]), "maxLog": r.choice([60, 200, 1000, 10 ** 7, 10 ** 7]),
                "inline": r.choice([1, 1, 0]), "now": r.choice([1000, 1, 1700000000000, 5, 1700000000000, K.MAXMS - 7000, K.MAXMS - 1500])}
         n_ops = r.range(5, 50)
-        ops, meta = K.gen_history(r, n_ops, cfg, free=False, allow_big=(i % 40 == 7))
+        ops, meta = K.gen_history(r, n_ops, cfg, free=False, allow_big=(i % 40 == 7), race=True)
         cases.append({"cat": "history", "ops": ops, "cfg": cfg, "dist": meta["dist"]})
     for i in range(n_free):
         r = rng.fork("free%d" % i)
         cfg = {"maxCache": r.choice([1, 2, 3]), "maxLog": r.choice([80, 300, 10 ** 7]), "inline": r.choice([1, 0]),
                "now": 1700000000000}
+        if i % 3 == 0:
+            cfg["maxCache"] = r.choice([3, 8, 1000])     # (a stale entry must survive until the round's quiescent check)
         ops, meta = K.gen_history(r, r.range(5, 30), cfg, free=True)
         if i % 3 == 0:
-            # concurrent readers + writer + clock racing the real wheel and eviction worker (implementation-only safety monitor)
-            ops.append("stress %d %d" % (r.below(10 ** 6), r.choice([15, 30, 60])))
+            # concurrent readers + writer + clock racing the real wheel and eviction worker, in rounds that end in a quiescent
+            # coherence check (implementation-only monitors); every third seed uses 1 MiB values
+            ops.append("stress %d %d" % (r.below(10 ** 6), r.choice([30, 60, 100])))
             meta["dist"]["stress"] = 1
         cases.append({"cat": "free-running", "ops": ops, "cfg": cfg, "dist": meta["dist"]})
     return cases
@@ -86,12 +115,32 @@ def check_stats(ctx, st, crashed=False):
     if not crashed and (int(st.get("sliced_waits", "0")) == 0 or int(st.get("clock_monotonic", "0")) == 0 or int(st.get("clock_realtime", "0")) == 0):
         raise RuntimeError("interposers not hit (sliced_waits=%s clock_monotonic=%s clock_realtime=%s): the deterministic clock/wait control is not in effect"
                            % (st.get("sliced_waits"), st.get("clock_monotonic"), st.get("clock_realtime")))
+    # the `racegate` schedule relies on the pthread_rwlock_wrlock interposer (std::shared_mutex::lock): if the gate is never reached the
+    # deterministic get-miss || writer schedule is not being exercised at all
+    if not crashed and int(st.get("gate_ops", "0")) > 20 and int(st.get("gate_hits", "0")) == 0:
+        raise RuntimeError("racegate: %s ops but get() never reached the gate (pthread_rwlock_wrlock interposer not in effect?)" % st.get("gate_ops"))
+    if not crashed and int(st.get("wgate_ops", "0")) > 20 and int(st.get("wgate_hits", "0")) == 0:
+        raise RuntimeError("wracegate: %s ops but set() never reached the gate (pthread_rwlock_wrlock interposer not in effect?)" % st.get("wgate_ops"))
+    if int(st.get("gate_timeouts", "0")) > 0:
+        raise RuntimeError("racegate: the writer neither returned nor blocked within 10 s (%s times)" % st.get("gate_timeouts"))
     import translate
     try:
         _, text = translate.generate("kv", ctx.repo)
     except Exception:
         return
     import re
+    # tie of the lock-scope fact to the running code: Gen says get() refills the cache while it still holds _mutex, so a writer released
+    # at the refill must block; a writer that RETURNED there contradicts the extracted scope
+    mg = re.search(r"def getRefillsCacheUnderStoreLock : Bool := (\w+)", text)
+    if mg and mg.group(1) == "true" and int(st.get("gate_writer_passed", "0")) > 0:
+        ctx.violation("translator", "Gen getRefillsCacheUnderStoreLock=true but in %s of %s gated get() calls a writer of the same key ran to completion between "
+                      "get()'s lookup and its cache refill" % (st.get("gate_writer_passed"), st.get("gate_hits")),
+                      {"broken": {"translator": "kv", "detail": "lock scope of get() (updateCache under the guard on _mutex)"}})
+    mw = re.search(r"def writersTouchCacheUnderStoreLock : Bool := (\w+)", text)
+    if mw and mw.group(1) == "true" and int(st.get("wgate_writer_passed", "0")) > 0:
+        ctx.violation("translator", "Gen writersTouchCacheUnderStoreLock=true but in %s of %s gated set() calls a second writer of the same key ran to completion between "
+                      "set()'s store to _kv and its cache update" % (st.get("wgate_writer_passed"), st.get("wgate_hits")),
+                      {"broken": {"translator": "kv", "detail": "lock scope of the writers (updateCache under the exclusive guard on _mutex)"}})
     gen = {m.group(1): int(m.group(2)) for m in re.finditer(r"def (maxPlausibleEpochMs|timePointMaxMs) : Int := (-?\d+)", text)}
     if gen.get("timePointMaxMs") != int(st.get("tp_max_ms", "-1")):
         ctx.violation("translator", "Gen timePointMaxMs=%s but the compiler computes toEpochMs(system_clock::time_point::max())=%s"
@@ -135,7 +184,7 @@ def replay(ctx):
     kvwork = os.path.join(ctx.work, "kvdirs")
     os.makedirs(kvwork, exist_ok=True)
     c = {"cat": obj.get("category", "history"), "ops": ops}
-    (c, impl, model), = ctx.lockstep("kv", hb, [c], impl_env={"KV_WORK": kvwork})
+    (c, impl, model), = K.lockstep(ctx, hb, [c], impl_env={"KV_WORK": kvwork})
     for o, a, b in zip(ops, impl, model):
         print("op    %s\n impl  %s\n model %s" % (o[:200], a[:200], b[:200]))
     fails = K.monitor_reads(ops, impl)
@@ -159,7 +208,8 @@ def run(ctx: Ctx):
         ctx.audit(MODULES, OBLIGATIONS)
         if not quick:
             ctx.leanchecker(MODULES + ["IoraModel.Lemmas.KvFiles", "IoraModel.Lemmas.KvStore", "IoraModel.Lemmas.KvLog", "IoraModel.Lemmas.KvMap",
-                                       "IoraModel.Model.KvSpec", "IoraModel.Model.KvStore", "IoraModel.Model.KvLog", "IoraModel.Model.KvMap"])
+                                       "IoraModel.Model.KvSpec", "IoraModel.Model.KvStore", "IoraModel.Model.KvLog", "IoraModel.Model.KvMap",
+                                       "IoraModel.Model.KvRace", "IoraModel.Lemmas.KvRace", "IoraModel.Model.KvRaceN", "IoraModel.Lemmas.KvRaceN"])
     else:
         ctx.cov["obligations"] = len(OBLIGATIONS)
     # memcpy(value.data(), ptr, 0) on an empty vector in load() passes a null pointer with length 0: flagged by UBSan's
@@ -171,7 +221,7 @@ def run(ctx: Ctx):
         kvwork = os.path.join(ctx.work, "kvdirs")
         os.makedirs(kvwork, exist_ok=True)
         cases = load_corpus() + gen_cases(ctx, rng.fork("gen"), quick) + [{"cat": "stats", "ops": ["stats"]}]
-        res = ctx.lockstep("kv", hb, cases, impl_env={"KV_WORK": kvwork}, timeout=3000)
+        res = K.lockstep(ctx, hb, cases, impl_env={"KV_WORK": kvwork}, timeout=3000)
         n_mismatch = 0
         for c, impl, model in res:
             if c["cat"] == "stats":
@@ -205,9 +255,15 @@ def run(ctx: Ctx):
     ctx.extra["input_distribution"] = {"cases": dist, "ops": opdist}
     ctx.extra["repo_tree_sha"] = ctx.repo_tree_sha(ANCHOR_FILES)
     ctx.extra["not_proved"] = [
-        "concurrent callers: every public method is one atomic step of the model (it holds _mutex for its whole body); get()'s cache fast path runs under "
-        "_cacheMutex only. The theorems cover every sequential order of those sections; readers racing a writer, the clock and the real eviction worker are "
-        "exercised by the `stress` op with an implementation-side safety monitor (no torn or foreign value), not proved (DetSched schedules not built)",
+        "concurrent callers: every public method is one atomic step of the sequential model (it holds _mutex for its whole body); get()'s cache fast path runs under "
+        "_cacheMutex only. The sequential theorems cover every order of those sections. PROVED for every schedule (M6, over the lock scopes the translator extracts and an obligation pins): "
+        "get() on a cache miss against ONE writer of the same key keeps the cache entry coherent and cannot deadlock (M6_get_miss_race, M6_progress); and for ANY number of threads making any sequences of "
+        "get(k) / writers of k (the eviction worker and the compaction thread are such writers) / erasures of k's cache entry (LRU victim of a call on another key), k's cache entry is coherent whenever no writer stands "
+        "between its two assignments, in particular at quiescence (M6_any_threads). The VALUES get() returns while calls are in flight are linearizable to an atomic register per key (M6_linearizable + M6_register_steps: fast-path read and miss-path load return the register, "
+        "each writer changes it once inside its call). No deadlock for any number of threads is proved too (M6_any_threads_progress; fairness/termination of every call only for two threads, M6_progress). NOT proved: the skeleton is per key (cross-key atomicity of setBatch/clear/compaction is the sequential model's: "
+        "they hold _mutex exclusively throughout); the fast path's shared hold of _cacheMutex is one atomic read step (argued in Model/KvRaceN.lean, not proved against a multi-step hold); "
+        "and memory-model/data-race freedom (C++ accesses are taken as atomic steps under their locks). Those are exercised by the deterministic `racegate` schedule (get() held at its cache refill while a writer is released) "
+        "and by the `stress` op (rounds of one writer + two readers + clock against the real wheel and worker, ending in a quiescent get/getString vs exists/getBatch + cache-coherence check; 1 MiB values every third seed), tested not proved",
         "bounded cache size (_cache.size() <= maxCacheSize) is checked by the implementation-side invariant monitor on every read, not stated as a theorem",
         "TimingWheel scheduling (clampDelay, levels, cascade) is not modelled: the eviction callback may arrive for any key, any generation, at any time, "
         "which covers every wheel behaviour (early, late, never)",
@@ -219,6 +275,13 @@ def run(ctx: Ctx):
         "TTLs need NO side condition: the deadline saturates (theorem M3_ttl_deadline), and Gen's timePointMaxMs / maxPlausibleEpochMs are cross-checked against the values the compiled harness prints",
         "every public method is one atomic step of the model. Exceptions in the code, all modelled as ONE step: removeWithPrefix() is keysWithPrefix() followed by one remove() per key, "
         "each under its own lock; get()'s cache fast path runs under _cacheMutex only (never _mutex); set(key, value, ttl)/setBatch(batch, ttl) sample now() BEFORE taking _mutex",
+        "the order in which keysWithPrefix() lists the keys (iteration order of a std::unordered_map) is an INPUT of the model (Op.removeWithPrefix p ord, used when it is a permutation of the model's matching live keys): "
+        "the harness reports the order the real call used and the model is re-run with it, so the position of inline compactions between the delete records is compared exactly; every theorem holds for every order. "
+        "Records of ONE critical section (setBatch, clear) and snapshot entries are still compared as sets (sorted on both sides)",
+        "`racegate k <writer>`: the harness interposes pthread_rwlock_wrlock, stops get(k) at its exclusive acquisition of _cacheMutex and releases the writer on a second thread until it has returned or its first "
+        "pthread_rwlock_trywrlock on _mutex failed (= it must wait for the reader); the model answers get-then-writer sequentially, which is the only outcome under the extracted lock scopes (M6); "
+        "the counters (gate_hits, gate_writer_blocked, gate_writer_passed) are checked against Gen.getRefillsCacheUnderStoreLock. `wracegate k v1 <writer>` is the same gate with set(k, v1) as the gated call "
+        "(it stands at the _cacheMutex acquisition of its updateCache; two writers, the schedule of M6_any_threads_unlocked_writer_refuted); counters wgate_* are checked against Gen.writersTouchCacheUnderStoreLock",
         "the wall clock is constant within one operation (the harness freezes CLOCK_REALTIME between ops) while the code reads it 2-3 times per call (e.g. deadline, then clampDelay in armTimerLocked; "
         "keysWithPrefix then each remove): a clock tick between those reads is not modelled",
         "maxCacheSize = 0 means cache off (after the FC12c repair; before it the first set/get was undefined behaviour); every other size, including 1, is covered by the theorems (cache-victim choice adversarial)",
